@@ -198,6 +198,9 @@ func (r *Replayer) Replay(h *Harness, f *Finding, tag string) (*ReplayOutcome, e
 	attempts := 1
 	if instrumented {
 		attempts = atoiDef(h.Opts["replay_attempts"], 8)
+		if f.Kind == "race" {
+			attempts *= 3 // the race detector only reports a race whose two accesses it happens to observe unordered
+		}
 	}
 	var out *ReplayOutcome
 	for a := 0; a < attempts; a++ {
